@@ -5,13 +5,6 @@
 #[verifier::external]
 impl core::fmt::Debug for Sm3Error { fn fmt(&self, f: &mut core::fmt::Formatter<'_>) -> core::fmt::Result { Ok(()) } }
 // ---------- assumed std specs ----------
-pub open spec fn rotl32(x: u32, n: u32) -> u32 {
-    if n % 32 == 0 { x } else { (x << (n % 32)) | (x >> ((32 - (n % 32)) as u32)) }
-}
-pub assume_specification[ u32::rotate_left ](x: u32, n: u32) -> (r: u32)
-    ensures r == rotl32(x, n);
-pub assume_specification<T: Clone>[ <[T]>::to_vec ](s: &[T]) -> (r: Vec<T>)
-    ensures r@ == s@;
 
 // ---------- GB/T 32905 spec ----------
 pub open spec fn add32(a: u32, b: u32) -> u32 { a.wrapping_add(b) }
